@@ -95,10 +95,30 @@ func BaseConfig(tokenType string) *config.Config {
 		PgpCertificate:  filepath.Join(KeyDir, "rsaA.pgp"),
 		Roles:           []string{"r"},
 	}
+	// further shapes of a certificate file for key rsaA (cmd/certgen/bundles):
+	// PEM blocks that are not certificates between or before the certificates,
+	// and a superseded intermediate with the current one's subject listed first
+	for name, file := range BundleKeys {
+		cfg.Keys[name] = &config.KeyConfig{
+			Token:           "tok",
+			KeyFile:         filepath.Join(KeyDir, "rsaA.key"),
+			X509Certificate: filepath.Join(KeyDir, file),
+			PgpCertificate:  filepath.Join(KeyDir, "rsaA.pgp"),
+			Roles:           []string{"r"},
+		}
+	}
 	if err := cfg.Normalize(""); err != nil {
 		panic(err)
 	}
 	return cfg
+}
+
+// BundleKeys: configuration key name -> certificate file; all of them are key
+// rsaA with its leaf certificate.
+var BundleKeys = map[string]string{
+	"rsaAmixed":    "rsaA.mixed-bundle.crt",
+	"rsaAkeyfirst": "rsaA.keyfirst-bundle.crt",
+	"rsaAstale":    "rsaA.stale-issuer.crt",
 }
 
 // Use installs cfg as the process-wide configuration (what `relic -c` does).
@@ -290,6 +310,9 @@ func VerifyWith(mod *signers.Signer, f *os.File, opts signers.VerifyOpts) ([]*si
 // LeafOf returns the configured leaf certificate of a fixture key.
 func LeafOf(key string) *x509.Certificate {
 	key = strings.TrimSuffix(key, "big")
+	if _, ok := BundleKeys[key]; ok {
+		key = "rsaA"
+	}
 	blob, err := os.ReadFile(filepath.Join(KeyDir, key+".leaf.crt"))
 	if err != nil {
 		panic(err)
